@@ -9,13 +9,6 @@ import Verif.C02.Spec
 namespace Verif.C02
 open Verif.C14 (Graph)
 
-/-- adjacent elements strictly increase -/
-def strictAsc : List Nat → Bool
-  | a :: b :: r => decide (a < b) && strictAsc (b :: r)
-  | _ => true
-
-def natLe (a b : Nat) : Bool := decide (a ≤ b)
-
 def cShape (f : FnDump) : Bool :=
   decide (0 < f.nblocks) &&
   (f.blocks.zipIdx.all fun x => decide (BlockShape f.nblocks x.1 x.2)) &&
@@ -31,11 +24,26 @@ def cTerminators (f : FnDump) : Bool := f.blocks.all fun b => decide (TermOK b)
 
 def cPhis (f : FnDump) : Bool := f.blocks.all fun b => decide (PhisOK b)
 
+/-- Which candidate sets pass the closure re-check `closedOK` (entry `d` = the set computed
+for block `d` is usable). -/
+def vetSets (G : Graph) (sets : Array (Array Bool)) : Array Bool :=
+  ((List.range G.size).map fun d => closedOK G d (sets.getD d #[])).toArray
+
+/-- `d` dominates `v` according to the re-checked sets (a set that failed its re-check is
+never consulted). -/
+def domV (sets : Array (Array Bool)) (ok : Array Bool) (d v : Nat) : Bool :=
+  d == v || (ok.getD d false && !(sets.getD d #[]).getD v false)
+
 /-- Dominance as decided by the validator: the fast answer from the re-checked sets, and
 when that says "no" the exact reference of C14 (`Verif.C14.dom`, reachability after
-removal, proved exact) — so a "no" is as trustworthy as a "yes". -/
+removal, proved exact) — so a "no" is as trustworthy as a "yes", whatever the unverified
+search produced. -/
 def domX (G : Graph) (sets : Array (Array Bool)) (d v : Nat) : Bool :=
-  domB sets d v || Verif.C14.dom G ⟨0, none⟩ d v
+  domV sets (vetSets G sets) d v || Verif.C14.dom G ⟨0, none⟩ d v
+
+/-- the same with the vetting table computed once -/
+def domXk (G : Graph) (sets : Array (Array Bool)) (ok : Array Bool) (d v : Nat) : Bool :=
+  domV sets ok d v || Verif.C14.dom G ⟨0, none⟩ d v
 
 /-- `OperandOK` with a Bool-valued dominance relation -/
 def operandOKB (DB : Nat → Nat → Bool) (f : FnDump) (fl : Array (Nat × Nat × Instr))
@@ -55,17 +63,19 @@ def operandOKB (DB : Nat → Nat → Bool) (f : FnDump) (fl : Array (Nat × Nat 
     | none => false
     | some w => w.kind.legit
 
-/-- every candidate set passes the closure re-check -/
+/-- every candidate set passes the closure re-check (diagnostic only: `domX` never trusts a
+set that fails it) -/
 def cSets (G : Graph) (sets : Array (Array Bool)) : Bool :=
   decide (sets.size = G.size) &&
   (List.range G.size).all fun d => closedOK G d (sets.getD d #[])
 
 def cDefUse (f : FnDump) (fl : Array (Nat × Nat × Instr)) (sets : Array (Array Bool)) : Bool :=
+  let ok := vetSets f.graph sets
   f.flatL.all fun x =>
-    x.2.2.ops.zipIdx.all fun ok =>
-      match ok.1 with
+    x.2.2.ops.zipIdx.all fun o =>
+      match o.1 with
       | none => true
-      | some v => operandOKB (domX f.graph sets) f fl x.1 x.2.1 x.2.2 ok.2 v
+      | some v => operandOKB (domXk f.graph sets ok) f fl x.1 x.2.1 x.2.2 o.2 v
 
 def cRefsTracked (f : FnDump) : Bool :=
   (f.flatL.all fun x => x.2.2.refs.isSome == x.2.2.ty.isSome) &&
@@ -78,31 +88,39 @@ def cTyping (f : FnDump) (fl : Array (Nat × Nat × Instr)) : Bool :=
   let c := f.ctx fl
   f.flatL.all fun x => decide (TypeRule c x.2.2)
 
+/-- `Operands()` and the operand-holding fields of the struct agree as multisets -/
+def cOperandsComplete (f : FnDump) : Bool :=
+  f.flatL.all fun x => x.2.2.ops == x.2.2.fops || x.2.2.ops.isPerm x.2.2.fops
+
+def cFunc (f : FnDump) : Bool := decide (FuncOK f)
+
 /-- the candidate "reachable avoiding d" sets, one per block (unverified computation) -/
 def mkSets (G : Graph) : Array (Array Bool) :=
   ((List.range G.size).map (avoidSet G)).toArray
 
-/-- The clauses with names, in the order they are reported. -/
-def clauses (f : FnDump) : List (String × Bool) :=
+/-- The clauses with names, in the order they are reported (`sets`: the candidate sets). -/
+def clausesS (f : FnDump) (sets : Array (Array Bool)) : List (String × Bool) :=
   let fl := f.flat
-  let G := f.graph
-  let sets := mkSets G
   [("shape", cShape f),
    ("cfg-inverse", cCfgInverse f),
    ("terminators", cTerminators f),
    ("phis", cPhis f),
-   ("dom-sets", cSets G sets),
    ("defs-dominate-uses", cDefUse f fl sets),
    ("refs-tracked", cRefsTracked f),
    ("refs-inverse", cRefsInverse f fl),
-   ("typing", cTyping f fl)]
+   ("typing", cTyping f fl),
+   ("operands-complete", cOperandsComplete f),
+   ("function", cFunc f)]
+
+def clauses (f : FnDump) : List (String × Bool) := clausesS f (mkSets f.graph)
 
 /-- **The validator.** -/
 def wfCheck (f : FnDump) : Bool :=
   let fl := f.flat
   let G := f.graph
   let sets := mkSets G
-  cShape f && cCfgInverse f && cTerminators f && cPhis f && cSets G sets &&
-    cDefUse f fl sets && cRefsTracked f && cRefsInverse f fl && cTyping f fl
+  cShape f && cCfgInverse f && cTerminators f && cPhis f &&
+    cDefUse f fl sets && cRefsTracked f && cRefsInverse f fl && cTyping f fl &&
+    cOperandsComplete f && cFunc f
 
 end Verif.C02
